@@ -63,7 +63,7 @@ def check(run):
         hdr = 8 if r["version"] == 2 else 9
         cases.append((r["id"] + ":raw", "match decode_raw_frame %s with DOk rf rest => list_beq Z Z.eqb (olist (rf_Body rf)) %s && Z.eqb (h_BodyLength (rf_Header rf)) %d "
                       "&& match rest with [] => true | _ => false end | _ => false end" % (fc.hxs(r["bytes"]), fc.hxs(r["bytes"][2 * hdr:]), r["body_len_emitted"])))
-    if cases and pr["ok"]:
+    if cases and fc.can_eval(pr):
         mism, cerr = fc.eval_cases("Cases_C05", fc.FRAME_PRELUDE, cases)
         if cerr:
             broken.append(cerr)
